@@ -24,118 +24,7 @@ ASSUMPTIONS = [
     "the statistical clause (joint samples) uses 7 standard errors of the sample covariance (false-alarm probability < 1e-9 per entry)",
 ]
 
-BOUNDS = [("inv_bw", 1e-4, 100.0), ("covariance_scale", 1e-3, 1e3), ("power_", 0.25, 4.0), ("alpha", 1e-6, 250.0), ("mean_lam", 1e-4, 50.0), ("gamma", 1e-4, 1.0)]
-
-
-def draw_param(t, name):
-    if "mean_value" in name:
-        return t.float(-3.0, 3.0) if t.bool() else 0.0
-    for key, lo, up in BOUNDS:
-        if key in name:
-            c = t.weighted([(3, 1.0), (1, lo), (1, up), (6, None)])
-            if c is None:
-                return math.exp(t.float(math.log(lo), math.log(up)))
-            return min(max(c, lo), up)
-    raise HarnessError(f"unknown parameter {name}")
-
-
-def gen_points(t, n, d, base=None):
-    X = []
-    for i in range(n):
-        if base is not None and len(base) and t.chance(1, 5):
-            src = base[t.index(len(base))]
-            if t.bool():
-                X.append(list(src))
-            else:
-                X.append([min(max(v + t.choice([1e-6, -1e-6]), 0.0), 1.0) for v in src])
-            continue
-        if X and t.chance(1, 6):
-            X.append(list(X[t.index(len(X))]))
-            continue
-        X.append([t.weighted([(1, 0.0), (1, 1.0), (8, None)]) for _ in range(d)])
-        X[-1] = [t.float(0.0, 1.0) if v is None else v for v in X[-1]]
-    return X
-
-
-def build_kernel(t, d):
-    """Returns (library kernel, reference kernel or None, label, input dimension)."""
-    from syne_tune.optimizer.schedulers.searchers.bayesopt.gpautograd.kernel import (
-        ExponentialDecayResourcesKernelFunction,
-        Matern52,
-        ProductKernelFunction,
-    )
-    from syne_tune.optimizer.schedulers.searchers.bayesopt.gpautograd.mean import ScalarMeanFunction
-    from syne_tune.optimizer.schedulers.searchers.bayesopt.gpautograd.warping import WarpedKernel, Warping
-
-    kind = t.weighted([(4, "matern"), (2, "warped"), (2, "product"), (1, "expdecay")])
-    if kind == "product" and d < 2:
-        kind = "matern"
-
-    def matern(dim):
-        ard = t.bool() and dim > 1
-        hcs = not t.chance(1, 4)
-        k = Matern52(dimension=dim, ARD=ard, has_covariance_scale=hcs)
-        k.collect_params().initialize()
-        return k, ard, hcs
-
-    def ref_of_matern(k, params, prefix=""):
-        ibs = [v for n_, v in sorted(params.items()) if n_.startswith(prefix + "inv_bw")]
-        cs = params.get(prefix + "covariance_scale", 1.0)
-        return RefKernel("matern", inv_bw=ibs if len(ibs) > 1 else ibs[0], cov_scale=cs)
-
-    if kind == "matern":
-        k, ard, hcs = matern(d)
-        params = {n_: draw_param(t, n_) for n_ in k.get_params()}
-        k.set_params(params)
-        return k, ref_of_matern(k, params), "matern" + ("-ard" if ard else "") + ("" if hcs else "-noscale"), d, params
-    if kind == "warped":
-        inner, ard, hcs = matern(d)
-        if d >= 3 and t.bool():
-            ranges = [(0, 1), (2, d)]
-        elif d >= 2 and t.bool():
-            ranges = [(0, t.int(1, d - 1))]
-        else:
-            ranges = [(0, d)]
-        ws = [Warping(d, r) for r in ranges]
-        k = WarpedKernel(inner, ws)
-        k.collect_params().initialize()
-        params = {n_: draw_param(t, n_) for n_ in k.get_params()}
-        k.set_params(params)
-        refr = []
-        for i, (lo, up) in enumerate(ranges):
-            pre = "warping_" if len(ranges) == 1 else f"warping{i}_"
-            size = up - lo
-            if size == 1:
-                a = [params[pre + "power_a"]]
-                b = [params[pre + "power_b"]]
-            else:
-                a = [params[pre + f"power_a_{j}"] for j in range(size)]
-                b = [params[pre + f"power_b_{j}"] for j in range(size)]
-            refr.append((lo, up, np.array(a), np.array(b)))
-        ref = RefKernel("warped", inner=ref_of_matern(inner, params, "kernel_"), ranges=refr)
-        return k, ref, f"warped-{len(ranges)}", d, params
-    if kind == "product":
-        d1 = t.int(1, d - 1)
-        k1, _, _ = matern(d1)
-        k2, _, _ = matern(d - d1)
-        k = ProductKernelFunction(k1, k2)
-        k.collect_params().initialize()
-        params = {n_: draw_param(t, n_) for n_ in k.get_params()}
-        k.set_params(params)
-        ref = RefKernel("product", d1=d1, k1=ref_of_matern(k1, params, "kernel1_"), k2=ref_of_matern(k2, params, "kernel2_"))
-        return k, ref, "product", d, params
-    kx, _, _ = matern(d)
-    mx = ScalarMeanFunction()
-    delta = t.weighted([(2, None), (1, 0.0), (1, 1.0), (2, "mid")])
-    if delta == "mid":
-        delta = t.float(0.05, 0.95)
-    k = ExponentialDecayResourcesKernelFunction(kx, mx, delta_fixed_value=delta)
-    k.collect_params().initialize()
-    params = {n_: draw_param(t, n_) for n_ in k.get_params() if n_ != "delta"}
-    if "delta" in k.get_params():
-        params["delta"] = t.float(0.0, 1.0)
-    k.set_params(params)
-    return k, None, "expdecay", d + 1, dict(params, delta_fixed=delta)
+from harness.gen_gp import build_kernel, draw_param, gen_points  # noqa: E402
 
 
 def case(t):
